@@ -28,6 +28,9 @@ pub fn plan05(tier: Tier) -> Plan {
     for p in pgrid() {
         checks.push(Box::new(QLasso { mode: Mode::C05, p, max_word: mw, n }));
     }
+    for p in [0., 0.5, 0.9] {
+        checks.push(cross(super::quantile::QSpec::new(Mode::C05, p, "qties"), if tier == Tier::Quick { 7 } else { 9 }));
+    }
     let mut a = common_assumptions();
     a.push("the reference is the P² algorithm as printed in Jain & Chlamtac 1985 (refmodels/p2.rs), in the paper's expression order".into());
     Plan {
@@ -61,6 +64,9 @@ pub fn plan07(tier: Tier) -> Plan {
     for p in ps {
         checks.push(qcheck(Mode::C07, p, "q07", 4, 0.0));
     }
+    for p in [0., 0.5, 1. / 3.] {
+        checks.push(cross(super::quantile::QSpec::new(Mode::C07, p, "q07"), 4));
+    }
     Plan {
         rule: "p over {0,1} U {k/n, k/n ± 1ulp : 1<=k<=n<=4} U pgrid; every sequence of length 1..4 over {-1,0,0.5,2,7} (every permutation of every multiset, duplicates included); quantile() after every add is compared with the exact sample quantile (n·p evaluated in integer arithmetic); non-trivial states hold 1..4 observations".into(),
         assumptions: common_assumptions(),
@@ -91,6 +97,9 @@ pub fn plan15(tier: Tier) -> Plan {
     let (mw, n) = if tier == Tier::Quick { (3, 300) } else { (4, 10_000) };
     for p in pgrid() {
         checks.push(Box::new(QLasso { mode: Mode::C15, p, max_word: mw, n }));
+    }
+    for p in [0., 0.5, 0.9] {
+        checks.push(cross(super::quantile::QSpec::new(Mode::C15, p, "qties"), if tier == Tier::Quick { 7 } else { 9 }));
     }
     Plan {
         rule: "the C05 stream families (bounded exhaustive and long lasso/trend streams) from the first observation on; invariants on every state: len/is_empty/p() read-back, quantile() NaN iff empty and otherwise within the ghost [min,max], from five observations on serialised heights non-decreasing with first = min and last = max; plus the constructor grid (panic iff p outside [0,1] or NaN)".into(),
